@@ -220,8 +220,33 @@ func cmdProp(args []string) int {
 			loadErrs = append(loadErrs, e)
 		}
 	}
+	// a contract file that no longer type-checks against the edited repository makes the contracts of
+	// that package stale (undecided), never a violation
+	stalePkgs := map[string]bool{} // obligation-name prefixes (function names) whose contract file has type errors
+	staleFiles := map[string]bool{}
+	for _, e := range loadErrs {
+		if i := strings.Index(e, "/verif_"); i >= 0 {
+			f := e
+			if j := strings.Index(e[i:], ".go"); j >= 0 {
+				f = e[:i+j+3]
+			}
+			if !staleFiles[f] {
+				stale = append(stale, "CONTRACT-STALE file "+f+": no longer type-checks against the repository ("+trunc(e, 200)+")")
+			}
+			staleFiles[f] = true
+		}
+	}
 	targets := selectTargets(prog, *id, "")
 	vcs := generate(prog, targets, false)
+	for _, c := range vcs {
+		d := c.fn
+		if c.fn.Contract != nil {
+			d = c.fn.Contract
+		}
+		if staleFiles[prog.fset.Position(d.Decl.Pos()).Filename] {
+			stalePkgs[c.fn.Name] = true
+		}
+	}
 	for _, e := range prog.errors {
 		if strings.HasPrefix(e, "CONTRACT-STALE") {
 			found := false
@@ -337,7 +362,7 @@ func cmdProp(args []string) int {
 	for name, want := range base.Claimed {
 		claimed++
 		o, ok := cur[name]
-		if !ok {
+		if !ok || stalePkgs[strings.SplitN(name, "/", 2)[0]] {
 			staleObls = append(staleObls, name)
 			continue
 		}
@@ -377,7 +402,7 @@ func cmdProp(args []string) int {
 			continue
 		}
 		o := cur[name]
-		if oblOK(o) {
+		if oblOK(o) || stalePkgs[strings.SplitN(name, "/", 2)[0]] {
 			continue
 		}
 		if o.Canary {
